@@ -38,7 +38,8 @@ def run(ctx, report):
     report.structural_section("MicroDVD (symbolic form)", lex, microdvd_site, ctx, report, ev, folder)
     report.structural_section("SAMI (symbolic form)", "R-DENOTES / R-SEGMENT on the generated SAMI documents (sami_reader_fold)",
                               sami_site, ctx, report, ev, folder)
-    report.section("append-order", append_order, ctx, report)
+    report.structural_section("append-order (shape)", "R-SEGMENT on the generated documents of every reader (one caption per cue, in "
+                              "document order)", append_order, ctx, report)
     report.section("Caption guards", caption_guards, ctx, report)
     from . import timestamp_fold
     report.section("lexical forms", timestamp_fold.run, ctx, report)
@@ -169,6 +170,8 @@ def srt_site(ctx, report, ev):
         if not m and "_srttomicro" not in txt:
             raise AnalysisError(f"SRT reader: cannot trace the {name} argument of Caption(...) to the conversion: {txt[:120]}")
         got.append(int(m.group(1)) if m else None)
+    if None in got:
+        raise AnalysisError("SRT reader: the halves of the arrow line are not taken with .split('-->')[k] (spelling not recognised)")
     report.check(got == [0, 1], "R-FIELD-ROUTING", rd, "start from the left of '-->', end from the right",
                  {"caption_arguments_trace_to_fields": got}, "1")
 
@@ -625,11 +628,8 @@ def microdvd_site(ctx, report, ev, folder):
     for k, name in ((0, "start"), (1, "end")):
         a_ = capt[0].args[k] if len(capt[0].args) > k else kwarg(capt[0], name)
         txt = src(resolve_local(rd, a_)) if a_ is not None else ""
-        m = re.fullmatch(r"self\._framestomicro\(int\((?:.*?)(?:%s)\), (\w+)\)" % grp, txt)
+        m = re.fullmatch(r"self\._framestomicro\(int\((?:.*?)(?:%s)\), (?:fps=)?(\w+)\)" % grp, txt)
         if not m:
-            if "_framestomicro" in txt:
-                traced.append((name, txt[:100]))
-                continue
             raise AnalysisError(f"MicroDVDReader.read: cannot trace Caption {name} to the conversion: {txt[:100]}")
         gi = int(m.group(1)) + 1 if m.group(1) is not None else int(m.group(2))
         traced.append((name, gi, m.group(3)))
@@ -894,7 +894,7 @@ def append_order(ctx, report):
         if q.endswith("_convert_div_to_caption_list"):
             comp = [n for n in walk_no_nested(fn.node) if isinstance(n, ast.ListComp)]
             ok = len(comp) == 1 and "find_all" in src(comp[0].generators[0].iter)
-            report.check(ok, "R-APPEND-ORDER", fn, "captions built by one comprehension over find_all('p')",
+            report.recognise(ok, "R-APPEND-ORDER", fn, "captions built by one comprehension over find_all('p')",
                          src(comp[0])[:160] if comp else None, "4")
             continue
         if not names:
